@@ -1,17 +1,21 @@
 """C01 — parsing is total: any text yields a template or an error, never a crash."""
-import itertools, json, random
+import itertools, json, random, re
 from props import tpl, progen, c03
 import lv
 
 PROP = "C01"
-TARGETS = ["props/C01.vo", "corr/Lexcorr.vo"]
+TARGETS = ["props/C01.vo", "corr/Lexcorr.vo", "corr/Blockcorr.vo"]
+BHEADER = "From LV Require Import Corr BlockParse Blockcorr.\n"
 TRUSTED = [
-    "coq/gen/Grammar.v is generated from grammar.pest on every run; model/Peg.v models the pest runtime (validated by the pair-stream correspondence on every enumerated text); "
-    "the recursive-descent code of parser.rs and of the tag/block parse() methods above the pair stream is not modelled: its panic freedom is explored (catch_unwind, process exit status and a wall-clock limit on every enumerated text), not proved",
-    "termination of pest on the generated grammar is not proved in general (the theorem is stated for every evaluation that does not run out of fuel; the correspondence runs never did)",
+    "coq/gen/Grammar.v (rules and termination certificate) is generated from grammar.pest on every run; the certificate is checked inside Coq (wf_cert ... = true by vm_compute), so a wrong certificate breaks the proof, it cannot make it unsound; "
+    "model/Peg.v models the pest runtime (validated by the pair-stream correspondence on every enumerated text)",
+    "model/BlockParse.v is a hand transcription of parser.rs (parse, TagBlock::next/escape_liquid/parse_all/assert_empty, BlockElement::parse_pair) and of the element loops of the stdlib blocks; it is validated by the C01/blocks correspondence "
+    "(outcome class of parse() on the whole text == outcome class of the model on the element stream pest produced and the verdict bits observed by parsing each element alone in the smallest block accepting it)",
+    "the argument parsers of the individual tags and the filter-chain construction are not modelled (input bits of the block model); their panic freedom is explored (catch_unwind, process exit status and a wall-clock limit on every enumerated text), not proved",
 ]
 RULE = ("every sequence of up to 3 (thorough: 4) lexemes over a 70-lexeme alphabet — delimiters with and without trim markers, every stdlib tag/block keyword with its end/else/when/elsif forms, operators, literals incl. 20-digit integers, signs, both quote styles and "
         "unterminated quotes, identifiers, non-ASCII text, tabs, stray braces; random token soups up to 14 lexemes; character-level delete/duplicate/transpose mutations of generated well-formed templates; nesting up to depth 32; "
+        "exhaustive sequences of up to 2 (thorough: 3) whole elements over 49 (every block keyword with accepted, rejected and superfluous arguments, closers with arguments, invalid tokens) and well-formed block nestings with 0-3 injected faults (replace/delete/insert/swap); "
         "parser configurations stdlib, stdlib+jekyll+shopify+extra, empty; a list of texts the language rejects, each of which must be an error with a message; non-trivial = the text is rejected or contains markup")
 
 LEX = ["{{", "}}", "{%", "%}", "{{-", "-}}", "{%-", "-%}", " ", "\t", "\n", "x", "y.z", "a[0]", "é", "'s'", '"d"', "'", '"', "1", "-1", "1.5", "99999999999999999999", "-99999999999999999999", "+", "-", "..", "(1..3)", "(", ")",
@@ -33,6 +37,144 @@ MUST_FAIL = ["{% unknown_tag %}", "{{ x | no_such_filter }}", "{{ x | upcase: 1 
 MUST_PARSE = ["", "plain", "}}", "%}", "{ {", "{{ x }}", "{{ x | upcase }}", "{% if x %}{% endif %}", "{% case x %}{% else %}{% endcase %}", "{% case x %}{% endcase %}", "{% comment %}{{ bad {% endcomment %}", "{% raw %}{{ {% endraw %}",
               "{% comment %}{% if x %}{{ bad {% endif %}{% endcomment %}", "{% comment %}{% unknown %}{% endcomment %}", "{{ 9223372036854775807 }}", "{{ -9223372036854775808 }}", "{%\tif x\t%}{%\tendif\t%}", "{{ x['a'][0].b }}",
               "{% for i in (1..3) reversed limit:1 offset:1 %}{% else %}{% endfor %}", "{% tablerow i in x cols:2 %}{% endtablerow %}", "{% cycle 'a': 1, 2 %}", "{% ifchanged %}{% endifchanged %}", "{% break %}", "{% continue %}"]
+
+
+PLAIN = {"assign", "break", "continue", "cycle", "decrement", "include", "increment", "render"}
+KW = {"if": "KIf", "unless": "KUnless", "else": "KElse", "elsif": "KElsif", "endif": "KEndif", "endunless": "KEndunless", "for": "KFor", "endfor": "KEndfor", "tablerow": "KTablerow", "endtablerow": "KEndtablerow",
+      "case": "KCase", "when": "KWhen", "endcase": "KEndcase", "capture": "KCapture", "endcapture": "KEndcapture", "ifchanged": "KIfchanged", "endifchanged": "KEndifchanged", "comment": "KComment", "endcomment": "KEndcomment",
+      "raw": "KRaw", "endraw": "KEndraw"}
+WRAP = {"if": ("", "{% endif %}"), "unless": ("", "{% endunless %}"), "for": ("", "{% endfor %}"), "tablerow": ("", "{% endtablerow %}"), "case": ("", "{% endcase %}"), "capture": ("", "{% endcapture %}"),
+        "elsif": ("{% if true %}", "{% endif %}"), "when": ("{% case 1 %}", "{% endcase %}")}
+
+
+ELEMS = ["t", "{{ x }}", "{{ x | nofilter }}", "{{ bad", "{% bad", "{% unknown %}", "{% assign a = 1 %}", "{% assign %}", "{% break %}", "{% cycle 1, 2 %}",
+         "{% if x %}", "{% if %}", "{%- if x == 1 -%}", "{% elsif y %}", "{% elsif %}", "{% else %}", "{% else x %}", "{% endif %}", "{% endif x %}",
+         "{% unless x %}", "{% unless %}", "{% endunless %}", "{% for i in a %}", "{% for i %}", "{% endfor %}", "{% endfor 1 %}", "{% tablerow i in a %}", "{% tablerow %}", "{% endtablerow %}",
+         "{% case x %}", "{% case %}", "{% when 1 %}", "{% when 1 or 2, 3 %}", "{% when %}", "{% endcase %}", "{% capture c %}", "{% capture %}", "{% endcapture %}",
+         "{% ifchanged %}", "{% ifchanged x %}", "{% endifchanged %}", "{% comment %}", "{% comment x %}", "{% endcomment %}", "{% endcomment x %}", "{% raw %}", "{% raw x %}", "{% endraw %}", "{%- endraw x -%}"]
+OPENERS = {"{% if x %}": "{% endif %}", "{% unless x %}": "{% endunless %}", "{% for i in a %}": "{% endfor %}", "{% tablerow i in a %}": "{% endtablerow %}", "{% case x %}": "{% endcase %}",
+           "{% capture c %}": "{% endcapture %}", "{% ifchanged %}": "{% endifchanged %}", "{% comment %}": "{% endcomment %}", "{% raw %}": "{% endraw %}"}
+
+
+def block_texts(tier, seed):
+    """sequences of whole elements: every block keyword with accepted, rejected and superfluous arguments"""
+    rnd = random.Random(seed * 7 + 1)
+    out = {}
+    for k in (1, 2) if tier == "quick" else (1, 2, 3):
+        for combo in itertools.product(ELEMS, repeat=k):
+            out.setdefault("".join(combo), "exhaustive element sequences (length %d)" % k)
+    ops = list(OPENERS)
+    good = ["t", "{{ x }}", "{% assign a = 1 %}", "{% break %}", "{% cycle 1, 2 %}", " "]
+    mids = {"{% if x %}": ["{% else %}", "{% elsif y %}", "{% elsif y %}{% else %}", "{% else x %}"], "{% unless x %}": ["{% else %}", "{% else x %}"], "{% for i in a %}": ["{% else %}"],
+            "{% case x %}": ["{% when 1 %}", "{% when 1 %}{% when 2 or 3 %}", "{% when 1 %}{% else %}", "{% else %}"]}
+
+    def nest(depth):
+        """a well-formed element list"""
+        parts = []
+        for _ in range(rnd.randint(1, 3)):
+            if depth > 0 and rnd.random() < 0.6:
+                o = rnd.choice(ops)
+                body = nest(depth - 1) if o not in ("{% raw %}",) else [rnd.choice(["t", "{{ x", "{% if x %}", "{% endraw x %}"])]
+                if o in mids and rnd.random() < 0.6:
+                    m = rnd.choice(mids[o])
+                    body = body + re.findall(r"\{%.*?%\}", m) + nest(depth - 1)
+                if o == "{% case x %}" and not body[0].startswith("{% when") and not body[0].startswith("{% else"):
+                    body = ["{% when 1 %}"] + body
+                parts += [o] + body + [OPENERS[o]]
+            else:
+                parts.append(rnd.choice(good))
+        return parts
+    n = 4000 if tier == "quick" else 40000
+    for i in range(n):
+        els = nest(rnd.randint(1, 4))
+        for _ in range(rnd.choice([0, 1, 1, 1, 2, 3])):
+            j = rnd.randrange(len(els))
+            m = rnd.random()
+            if m < 0.4:
+                els[j] = rnd.choice(ELEMS)
+            elif m < 0.6 and len(els) > 1:
+                del els[j]
+            elif m < 0.8:
+                els.insert(j, rnd.choice(ELEMS))
+            else:
+                k = rnd.randrange(len(els))
+                els[j], els[k] = els[k], els[j]
+        out.setdefault("".join(els), "random nesting of blocks with misplaced, missing and malformed tags")
+    return out
+
+
+def block_suite(run, binp, texts, outcome, tier, seed):
+    """parse() above the pair stream == model/BlockParse.v: the element stream pest hands over, the verdict of each
+    element's own argument parser (observed by parsing that element alone, in the smallest block that accepts it),
+    and the class of outcome of the whole text (template / error / panic)"""
+    from lv import C, R, Nv
+    texts = [t for t in sorted(set(texts)) if t in outcome]
+    reqs = [{"id": i, "kind": "elements", "text": t} for i, t in enumerate(texts)]
+    resps, problems = lv.run_harness(binp, reqs, tag="C01el")
+    streams = {}
+    for q in reqs:
+        r = resps.get(q["id"])
+        if r and r.get("elements") is not None:
+            streams[q["text"]] = r["elements"]
+    # one oracle query per distinct element
+    probes = {}
+    for els in streams.values():
+        for e in els:
+            if e["rule"] == "Expression":
+                probes.setdefault(e["text"], None)
+            elif e["rule"] == "Tag" and (e["name"] in PLAIN or e["name"] in WRAP):
+                a, b = WRAP.get(e["name"], ("", ""))
+                probes.setdefault(a + e["text"] + b, None)
+    plist = sorted(probes)
+    presps, pproblems = lv.run_harness(binp, [{"id": i, "kind": "parse", "config": "stdlib", "tpl": t} for i, t in enumerate(plist)], tag="C01pr")
+    for i, t in enumerate(plist):
+        r = presps.get(i)
+        probes[t] = None if r is None or "panic" in r else bool(r.get("parsed"))
+    irs, keys, kinds = [], [], {}
+    for t, els in streams.items():
+        out, good = [], True
+        for e in els:
+            k = e["rule"]
+            if k == "Raw":
+                out.append(C("ERaw"))
+            elif k == "InvalidLiquid":
+                out.append(C("EInv"))
+            elif k == "EOI":
+                out.append(C("EEOI"))
+            elif k == "Expression":
+                ok = probes.get(e["text"])
+                good = good and ok is not None
+                out.append(C("EExp", bool(ok)))
+            else:
+                name, noargs = e["name"], e["nargs"] == 0
+                aok = True
+                if name in PLAIN or name in WRAP:
+                    a, b = WRAP.get(name, ("", ""))
+                    aok = probes.get(a + e["text"] + b)
+                    good = good and aok is not None
+                kw = "KPlain" if name in PLAIN else KW.get(name, "KOther")
+                kinds[kw] = kinds.get(kw, 0) + 1
+                out.append(C("ETag", C(kw), bool(aok), noargs))
+        if good:
+            irs.append(R("mkB", out, Nv(outcome[t])))
+            keys.append(t)
+    okd, drv, dout, ddt = lv.build_driver()
+    run.obligation(okd, "extraction of the model and driver build", dout[-3000:])
+    failing = []
+    if okd:
+        failing, errors = lv.run_driver(drv, "block_check", [lv.to_sexp(x) for x in irs], tag="C01blk")
+        run.obligation(not errors, "correspondence suite C01/blocks evaluated by the extracted model", json.dumps(errors)[:3000])
+        rnd = random.Random(seed)
+        idx = sorted(set(failing[:20]) | set(rnd.sample(range(len(irs)), min(len(irs), 100 if tier == "quick" else 400))))
+        cfail, cproblems = lv.run_coq_cases("C01blk", BHEADER, [lv.to_coq(irs[i]) for i in idx], check_fn="block_check", shard_size=50)
+        run.checker_cmds.append("coqc cases_*.v (Eval vm_compute in failing block_check cases) on a sample")
+        run.obligation(not cproblems and sorted(idx[j] for j in cfail) == sorted(i for i in failing if i in set(idx)),
+                       "extracted driver agrees with vm_compute inside Coq on %d sampled cases (block_check)" % len(idx), json.dumps(cproblems)[:2000])
+    for i in failing[:5]:
+        run.broken.append({"obligation": "correspondence C01/blocks: the block-parser model and parse() disagree on the class of outcome", "input": {"text": keys[i], "implementation": ["template", "error", "panic"][outcome[keys[i]]]}})
+    run.obligation(okd and not failing, "correspondence C01/blocks: model outcome class == parse() outcome class on every text", "%d disagreements of %d" % (len(failing), len(irs)))
+    classes = {"template": sum(1 for t in keys if outcome[t] == 0), "error": sum(1 for t in keys if outcome[t] == 1), "panic": sum(1 for t in keys if outcome[t] == 2)}
+    return {"evaluations": len(irs), "disagreements": len(failing), "tag_kinds": kinds, "probes": len(plist), "classes": classes}
 
 
 def gen(tier, seed):
@@ -73,6 +215,8 @@ def gen(tier, seed):
             add(opener * d + "{{ bad " + closer * d, "nesting with an invalid token")
             add("{% comment %}" + opener * d, "unclosed blocks inside a comment")
             add("{% comment %}" + opener * d + "{{ bad " + closer * d + "{% endcomment %}", "invalid token in blocks inside a comment")
+    for t, w in block_texts(tier, seed).items():
+        add(t, w)
     for t in MUST_FAIL:
         add(t, "must be rejected")
     for t in MUST_PARSE:
@@ -95,6 +239,7 @@ def main(tier, seed):
         return run.finish()
     cases, dist = gen(tier, seed)
     evaluations, nontriv, samples = 0, set(), []
+    outcome = {}
     must_fail, must_parse = set(MUST_FAIL), set(MUST_PARSE)
     for config in ("stdlib", "all", "empty"):
         sub = cases if config == "stdlib" else [c for c in cases if c["why"] in ("must be rejected", "must be accepted", "random token soup", "character mutation of a well-formed template", "nesting", "unclosed blocks inside a comment")
@@ -110,6 +255,8 @@ def main(tier, seed):
                 continue
             evaluations += 1
             inp = {"text": c["text"], "config": config}
+            if config == "stdlib":
+                outcome[c["text"]] = 2 if "panic" in r else 1 if "parse_err" in r else 0
             if "panic" in r:
                 run.violations.append({"what": "parsing panicked", "input": inp, "observed": r["panic"]})
                 continue
@@ -129,12 +276,22 @@ def main(tier, seed):
             if len(samples) < 3 and c["why"] == "random token soup":
                 samples.append({"request": {"text": c["text"], "config": config}, "implementation": r})
     # the grammar model on the same texts
-    lex_texts = [c["text"] for c in cases if not c["why"].startswith("exhaustive lexeme sequences (length 3") and not c["why"].startswith("exhaustive lexeme sequences (length 4")]
+    heavy = ("exhaustive lexeme sequences (length 3", "exhaustive lexeme sequences (length 4", "exhaustive element sequences", "random nesting of blocks")
+    lex_texts = [c["text"] for c in cases if not c["why"].startswith(heavy)]
+    block_texts_ = [c["text"] for c in cases if c["why"].startswith(heavy[2:])]
     rnd = random.Random(seed)
-    rest = [c["text"] for c in cases if c["text"] not in set(lex_texts)]
+    have = set(lex_texts)
+    rest = [c["text"] for c in cases if c["text"] not in have and len(c["text"]) < 120]
     lex_texts += rnd.sample(rest, min(len(rest), 4000 if tier == "quick" else 40000))
     st = c03.lex_suite(run, binp, lex_texts, "C01", tier, seed)
     dist["pair_stream_compared"] = st["evaluations"]
+    bt = block_suite(run, binp, lex_texts + block_texts_, outcome, tier, seed)
+    dist["block_machinery_compared"] = bt["evaluations"]
+    dist["block_machinery_tag_kinds"] = bt["tag_kinds"]
+    dist["block_machinery_element_probes"] = bt["probes"]
+    dist["block_machinery_outcome_classes"] = bt["classes"]
+    st["evaluations"] += bt["evaluations"]
+    st["disagreements"] += bt["disagreements"]
     run.coverage.update({"evaluations": evaluations + st["evaluations"], "distinct_nontrivial": len(nontriv), "rule": RULE, "samples": samples,
                          "traces_validated_against_impl": evaluations + st["evaluations"], "disagreements_checked": st["disagreements"], "exhaustive": True, "input_distribution": dist})
     return run.finish()
